@@ -98,7 +98,15 @@ Inductive delivered :=
 | Copied (s : fstate)              (* a CopiedFailure: type / value / traceback / parents as sent *)
 | Wrapped (s : fstate).            (* Failure(RemoteException(CopiedFailure)) *)
 
+(* f.check(RemoteException) on a received CopiedFailure: answered from its .parents strings *)
+Definition claims_remote_exception (s : fstate) : bool := existsb (list_eqb remote_exception_name) (s_parents s).
+
+(* wrap_remote_failure: unconditional, or (if the source says so) passing through a failure whose remote class already is
+   RemoteException *)
+Definition wrap (s : fstate) : delivered :=
+  if wrap_is_unconditional then Wrapped s else if claims_remote_exception s then Copied s else Wrapped s.
+
 Definition deliver (expose : bool) (s : fstate) : delivered :=
-  if Bool.eqb expose wrap_when_expose_is then Wrapped s else Copied s.
+  if Bool.eqb expose wrap_when_expose_is then wrap s else Copied s.
 
 Definition dots : list Z := [46; 46].
